@@ -24,15 +24,25 @@ def two_team_sweep(draw, kinds=gen.KINDS, x_lo=-10.0, x_hi=10.0, outcomes=("win"
     beta = cfg["beta"]
     tau = cfg["tau"]
     mode = draw(st.integers(0, 9))
-    far = mode == 0  # neighbourhoods of the thresholds of the underlying float functions, far out in the tails
-    sizes = draw(st.sampled_from([[4, 4], [4, 5], [8, 8], [3, 4]])) if far else draw(st.sampled_from([[1, 1], [1, 1], [1, 1], [2, 2], [1, 2], [3, 1], [2, 1]]))
+    huge = mode == 1  # the largest standardised gaps the domain admits (13-16 settled players per side at opposite ends of the mu range): up to ~450
+    far = mode == 0 or huge  # neighbourhoods of the thresholds of the underlying float functions, far out in the tails
+    if huge:
+        sizes = draw(st.sampled_from([[16, 16], [16, 16], [13, 13], [16, 10], [10, 16], [14, 15], [16, 12]]))
+        tau = draw(st.sampled_from([0.0, 1e-6 * beta, beta / 50.0]))  # passed per call below: a large tau would shrink every gap
+    else:
+        sizes = draw(st.sampled_from([[4, 4], [4, 5], [8, 8], [3, 4]])) if far else draw(st.sampled_from([[1, 1], [1, 1], [1, 1], [2, 2], [1, 2], [3, 1], [2, 1]]))
     # sigma relative to beta: uniform on a log scale (also a derived quantity worth sweeping), defaults included
     def sg():
+        if huge:
+            return draw(st.floats(-4.0, -1.5).map(lambda u: 10.0 ** u)) * beta  # c_iq within 1 % of sqrt(2) beta
         if far:
             return draw(st.floats(-4.0, -0.5).map(lambda u: 10.0 ** u)) * beta  # settled players: c_iq close to sqrt(2) beta, so large |x| fit the mu range
         return draw(st.one_of(st.just(2.0), st.floats(-4.0, 1.0).map(lambda u: 10.0 ** u))) * beta
     teams = [[[0.0, sg()] for _ in range(k)] for k in sizes]
-    if far:
+    if huge:
+        # log-uniform from 10 to the largest gap the mu range admits (where exp(x), exp(2x), x * x * ... leave the float range: 354.9, 709.8 / 2 ...)
+        x = 10.0 ** draw(st.floats(1.0, math.log10(460.0))) * draw(st.sampled_from([1.0, -1.0]))
+    elif far:
         # where erfc / exp / the epsilon guards change regime: Phi(-x) = 2^-52 (8.126), smallest normal (37.52), Phi(-x) -> 0 (38.4754),
         # exp(-x^2/2) -> 0 (38.58); +-0.15 around each, both signs
         x = (draw(st.sampled_from(FLOAT_THRESHOLDS)) + draw(st.floats(-0.15, 0.15))) * draw(st.sampled_from([1.0, -1.0]))
@@ -68,7 +78,9 @@ def two_team_sweep(draw, kinds=gen.KINDS, x_lo=-10.0, x_hi=10.0, outcomes=("win"
     outcome = draw(st.sampled_from(list(outcomes)))
     ranks = {"win": [0, 1], "loss": [1, 0], "draw": [0, 0]}[outcome]
     call = {"ranks": ranks}
-    opts = draw(gen.call_options(cfg)) if draw(st.integers(0, 3)) == 0 else {}
+    if huge:
+        call["tau"] = tau
+    opts = draw(gen.call_options(cfg)) if draw(st.integers(0, 3)) == 0 and not huge else {}
     for k, v in opts.items():
         if v is not None:
             call[k] = v
